@@ -67,6 +67,8 @@ func instancesFor(prop, tier string) []*Instance {
 		c04Instances(add, thorough)
 	case "C05":
 		c05Instances(add, thorough)
+	case "C06":
+		c06Instances(add, thorough)
 	case "C03":
 		c03Instances(add, thorough)
 	case "C15":
@@ -548,5 +550,45 @@ func c05Instances(add func(*Instance), thorough bool) {
 		add(&Instance{Func: "VerifC05RoundTrip", Tier: b.tier, Params: with(base, "wr", 0, "rd", 0, "reuse", 1)})
 		add(&Instance{Func: "VerifC05RoundTrip", Tier: b.tier, Params: with(base, "wr", 0, "rd", 2, "reuse", 1, "tail", 0)})
 		add(&Instance{Func: "VerifC05WriterFault", Tier: b.tier, Params: base})
+	}
+}
+
+func c06Instances(add func(*Instance), thorough bool) {
+	for _, b := range serialShapes(thorough) {
+		win := P("xb", 0, "xm", -1)
+		hasB := b.p["ac0"] == 100 || b.p["ac1"] == 100
+		if hasB {
+			win = P("xb", 4150, "xm", 15)
+		}
+		base := with(b.p, "L", 7, "eff", 1, "acow", 0)
+		for k, v := range win {
+			base[k] = v
+		}
+		add(&Instance{Func: "VerifC06Write", Tier: b.tier, Note: b.name, Params: base})
+		if b.p["ak"] == 0 {
+			continue
+		}
+		hasRun := false
+		for _, k := range []string{"ac0", "ac1", "ac2", "ac3", "ac4"} {
+			if v, ok := b.p[k]; ok && v/100 == 2 {
+				hasRun = true
+			}
+		}
+		for rd := 0; rd <= 2; rd++ {
+			if !hasRun {
+				add(&Instance{Func: "VerifC06Read", Tier: b.tier, Params: with(base, "enc", 0, "rd", rd)})
+			}
+			for rs := 0; rs <= 1; rs++ {
+				for as := 0; as <= 1; as++ {
+					if rs == 1 && !hasRun {
+						continue
+					}
+					if hasB && as == 1 && rd != 0 {
+						continue
+					}
+					add(&Instance{Func: "VerifC06Read", Tier: b.tier, Params: with(base, "enc", 1, "rstyle", rs, "astyle", as, "rd", rd)})
+				}
+			}
+		}
 	}
 }
